@@ -1,0 +1,13 @@
+//go:build verif
+
+package s2
+
+// This file is compiled only with the build tag "verif". It exports thin
+// read-only accessors for the unexported fields of PaddedCell so that the
+// external verification harness can compare them with its formal model.
+// It adds no behaviour.
+
+// VerifC06pcFields returns the unexported integer fields of a PaddedCell.
+func VerifC06pcFields(p *PaddedCell) (id CellID, level, orientation, iLo, jLo int) {
+	return p.id, p.level, p.orientation, p.iLo, p.jLo
+}
